@@ -293,6 +293,11 @@ def run(cfg, H):
             H.eq('rms^2 is the mean square of the valid samples', rms * rms, sum(v * v for v in vals) * H.frac(1, n))
             H.eq('Sa is the mean absolute deviation of the valid samples', sa, sum(abs(v - mean) for v in vals) * H.frac(1, n))
             H.eq('PV is max - min of the valid samples', pv, _maxof(vals) - _minof(vals))
+            if n >= 3:
+                # the same statistics on a column-major (transposed / asfortranarray) map with a NaN pattern that is not transpose-symmetric
+                fa = H.asarray(H.np.asfortranarray(H.np.asarray(H.asarray([[vals[0], H.nan], [vals[1], vals[2]]]))))
+                H.eq('mean of a column-major map ignores invalid samples', U.mean(fa), (vals[0] + vals[1] + vals[2]) * H.frac(1, 3))
+                H.eq('rms^2 of a column-major map', U.rms(fa) * U.rms(fa), (vals[0] * vals[0] + vals[1] * vals[1] + vals[2] * vals[2]) * H.frac(1, 3))
         else:
             H.le('Sa <= std', sa, std)
             H.le('std <= PV', std, pv)
